@@ -25,6 +25,10 @@ THEOREMS = [
     "Vinegar.C17.allowCheck_model",
     "Vinegar.C17.runFresh_eq_ref",
     "Vinegar.C17.rendersMatchRef_iff",
+    "Vinegar.C17.inclOpt_meaning",
+    "Vinegar.C17.inclOpt_alone",
+    "Vinegar.C17.inclOpt_ref",
+    "Vinegar.C17.onGetError_spec",
 ]
 TRUSTED_BASE = [
     "Lean 4.33 kernel; axioms of every C17 theorem audited ⊆ {propext, Classical.choice, Quot.sound}",
@@ -41,7 +45,8 @@ ASSUMPTIONS = [
     "the configurations considered)",
     "a file's stamp (what version_for_file_path / getmtime observe) changes whenever its content changes: hypothesis "
     "`OpsFresh` of history_transparent; the harness enforces it with os.utime and strictly increasing whole seconds",
-    "templates are the abstract syntax text / {{ var }} / include / import-as-module / python[key] / import_json and "
+    "templates are the abstract syntax text / {{ var }} / include / include … ignore missing / import-as-module / "
+    "python[key] / import_json and "
     "import_yaml of a data file (vinegar's serialisation extension; for the model an import whose value is the file's text: "
     "the adapter writes the text as one JSON string and the extension parses it back); the adapter prints it as Jinja "
     "source, so Jinja's compiler is exercised but not modelled",
@@ -58,7 +63,11 @@ RULE = ("history cases = configuration {root_dir?} x {cache_enabled True/False/d
         "True/False/default} x optional context / provide_python_modules / env.cache_size, and a history of writes "
         "(strictly increasing stamps), deletes and renders over a three-level file tree (rendered templates -> "
         "included/imported -> leaves; same basenames in different directories; include names spelled relative to the "
-        "includer, to the root, with ./, absolute, missing); a history case is non-trivial if it has >= 2 renders and "
+        "includer, to the root, with ./, absolute, missing; a quarter of the plain includes carry `ignore missing`), plus "
+        "dedicated optional-include histories (the optionally included file exists / is deleted between two renders of "
+        "the same engine / is re-created / is missing from the start / lies below a regular file / is named with '..' / is "
+        "a directory / fails only inside: nested plain include or import gone) for every root_dir x cache_enabled x "
+        "relative_includes; a history case is non-trivial if it has >= 2 renders and "
         "at least one render succeeded; python[key] keys name well-formed absolute module names (existing fake modules, missing ones, keys without a dot); access cases = (allow-list, sequence of confusable module names) on one helper "
         "object, non-trivial if the helper exists; join cases = (template, parent) pairs over segments incl. '..', '.', "
         "'', leading /, //, ///; distinct by SHA-1 of the whole case")
@@ -90,6 +99,8 @@ def _streams(rng, tier, mult):
     n_hist = (1500 if quick else 20000) * mult
     yield [J.gen_history_case(rng, i, nested=(i % 10 == 9)) for i in range(n_hist)]
     yield [J.gen_nested_memo_case(rng, i) for i in range((72 if quick else 720) * mult)]
+    # `include … ignore missing` while the optional file comes and goes (36 configurations x 10 shapes)
+    yield [J.gen_optional_case(rng, i) for i in range((108 if quick else 1440) * mult)]
     # D11 shaped: several renders in a row for every configuration combination
     rep = []
     for root in (False, True):
